@@ -83,6 +83,9 @@ func cpFor(p core.ProtocolID, label string) string {
 	if p == core.PROTOCOL_IBC {
 		return []string{"channel-0", "channel-1", "chan"}[verif.Choose(label+"-ibc", 3)]
 	}
+	if p == core.PROTOCOL_INTERNAL && verif.Bool(label+"-is-the-internal-destination") {
+		return fwdtypes.CounterpartyID // the one identifier internal transfers are matched under (longer than strlen)
+	}
 	return verif.String(label, verif.Bound("strlen"))
 }
 
